@@ -351,8 +351,9 @@ def run(ctx):
             corr.add("encode", f"tr.encode {out}", obs.get("encode"))
 
     # ---------------- blocks
-    n_random = ctx.budget(1200, 97000)
-    blocks = structured_blocks(rng, ctx.budget(1, 12))
+    # a boosted search (x4 drift, x8 broken proof/correspondence) is capped so that thorough stays within minutes
+    n_random = min(ctx.budget(1200, 97000), 300000)
+    blocks = structured_blocks(rng, min(ctx.budget(1, 12), 24))
     blocks += [("random", rand_block(rng)) for _ in range(n_random)]
     sample_at = {"corpus": 1, "transition-forced": 5, "random": 3}
     seen_tag = {}
@@ -398,18 +399,18 @@ def run(ctx):
     pairs = ["00", "01", "10", "11"]
     if encoded:
         # exhaustively: every position x every alternative dibit on a few blocks
-        for block, enc in [encoded[rng.randrange(len(encoded))] for _ in range(ctx.budget(2, 40))]:
+        for block, enc in [encoded[rng.randrange(len(encoded))] for _ in range(min(ctx.budget(3, 40), 100))]:
             for pos in range(98):
                 for alt in pairs:
                     if alt != enc[2 * pos : 2 * pos + 2]:
                         do_stream("dibit-replaced", enc[: 2 * pos] + alt + enc[2 * pos + 2 :], {"block": block, "dibit": pos, "to": alt})
-        for _ in range(ctx.budget(300, 20000)):
+        for _ in range(min(ctx.budget(600, 20000), 60000)):
             block, enc = encoded[rng.randrange(len(encoded))]
             pos = rng.randrange(98)
             alt = rng.choice([p for p in pairs if p != enc[2 * pos : 2 * pos + 2]])
             do_stream("dibit-replaced", enc[: 2 * pos] + alt + enc[2 * pos + 2 :], {"block": block, "dibit": pos, "to": alt})
         # two dibits replaced (may move a point back into the row)
-        for _ in range(ctx.budget(100, 5000)):
+        for _ in range(min(ctx.budget(150, 5000), 20000)):
             block, enc = encoded[rng.randrange(len(encoded))]
             s = list(enc)
             for pos in rng.sample(range(98), 2):
@@ -417,7 +418,7 @@ def run(ctx):
             do_stream("two-dibits-replaced", "".join(s), {"block": block})
 
     # ---------------- one constellation point replaced: every (state, point) combination
-    for _ in range(ctx.budget(2, 30)):
+    for _ in range(min(ctx.budget(3, 30), 80)):
         for st in range(8):
             for q in range(16):
                 for where in ("first", "middle", "flush"):
@@ -447,9 +448,9 @@ def run(ctx):
                     ctx.count(f"point-replaced:state{st}:{'in-row' if q in ref.row(st) else 'not-in-row'}")
                     do_stream(f"point-replaced-{where}", s, {"block": block, "position": i, "state": st, "point": q})
     # random 196-bit strings (almost always rejected early) and random valid paths with a non-zero flush
-    for _ in range(ctx.budget(100, 3000)):
+    for _ in range(min(ctx.budget(100, 3000), 10000)):
         do_stream("random-stream", format(rng.getrandbits(196), "0196b"), {})
-    for _ in range(ctx.budget(50, 1000)):
+    for _ in range(min(ctx.budget(50, 1000), 4000)):
         ts = [rng.randrange(8) for _ in range(49)]
         st, pts = 0, []
         for x in ts:
@@ -461,7 +462,7 @@ def run(ctx):
     corr.flush()
 
     # ---------------- interleaver on 98 distinct markers
-    for k in range(ctx.budget(30, 500)):
+    for k in range(min(ctx.budget(30, 500), 1000)):
         markers = list(range(-49, 49))
         if k:
             rng.shuffle(markers)
@@ -507,7 +508,7 @@ class Corr:
 def stage_correspondence(ctx, corr, encoded):
     t = T()
     rng = ctx.rng
-    n = ctx.budget(60, 1500)
+    n = min(ctx.budget(60, 1500), 3000)
     valid_d = [3, 1, -1, -3]
 
     def rbits(k):
